@@ -14,6 +14,7 @@ import (
 	"net"
 	"net/http"
 	"net/http/httptest"
+	"net/url"
 	"os"
 	"path/filepath"
 	"sort"
@@ -683,12 +684,16 @@ func c14SmCb(a []string) string {
 
 // ServerManager.serveHls behind an http.ServeMux, on the sandbox of c14.hlsserve: histories of
 // requests (from chosen remote addresses), add_ip_blacklist calls and clock advances
-func c14ServeHlsSm(flags int, key, ovr, root string) *logic.ServerManager {
+func c14ServeHlsSm(flags int, key, ovr, root string, sub bool) *logic.ServerManager {
+	hashKey := ""
+	if sub {
+		hashKey = "q191201771"
+	}
 	conf := map[string]interface{}{
 		"conf_version": base.ConfVersion,
 		"log":          map[string]interface{}{"level": 5, "filename": "", "is_to_stdout": false, "is_rotate_daily": false, "short_file_flag": false, "timestamp_flag": false, "timestamp_with_ms_flag": false, "level_flag": false, "assert_behavior": 1},
 		"hls": map[string]interface{}{"enable": true, "url_pattern": "/hls/", "out_path": root, "fragment_duration_ms": 3000, "fragment_num": 6,
-			"delete_threshold": 6, "cleanup_mode": 0, "use_memory_as_disk_flag": false, "sub_session_timeout_ms": 0, "sub_session_hash_key": ""},
+			"delete_threshold": 6, "cleanup_mode": 0, "use_memory_as_disk_flag": false, "sub_session_timeout_ms": 600000, "sub_session_hash_key": hashKey},
 		"simple_auth": map[string]interface{}{"key": key, "dangerous_lal_secret": ovr, "hls_m3u8_enable": flags&64 != 0},
 	}
 	raw, err := json.Marshal(conf)
@@ -705,11 +710,12 @@ func c14ServeHls(a []string) string {
 	c14FillSandbox(top, true)
 	defer os.RemoveAll(top)
 	flags, key, ovr := intTok(a[0]), c14Str(a[1]), c14Str(a[2])
-	scen := strings.Split(a[3], "|")
+	sub := boolTok(a[3])
+	scen := strings.Split(a[4], "|")
 	muxes := make([]*http.ServeMux, len(scen))
 	sms := make([]*logic.ServerManager, len(scen))
 	for i := range scen {
-		sm := c14ServeHlsSm(flags, key, ovr, top+"/T1/T2/outer/root")
+		sm := c14ServeHlsSm(flags, key, ovr, top+"/T1/T2/outer/root", sub)
 		mux := http.NewServeMux()
 		mux.HandleFunc("/hls/", sm.VerifServeHls)
 		sms[i], muxes[i] = sm, mux
@@ -726,9 +732,19 @@ func c14ServeHls(a []string) string {
 
 func c14ServeHlsOnce(scen []string, sms []*logic.ServerManager, muxes []*http.ServeMux) (string, bool) {
 	out := make([]string, len(scen))
+	// a line without clock advances does not depend on which second an operation runs in
+	timed := false
+	for _, sc := range scen {
+		if strings.Contains(sc, "S:") {
+			timed = true
+		}
+	}
 	now := time.Now()
-	start := now.Truncate(time.Second).Add(time.Second + 300*time.Millisecond)
-	time.Sleep(start.Sub(now))
+	start := now
+	if timed {
+		start = now.Truncate(time.Second).Add(time.Second + 300*time.Millisecond)
+		time.Sleep(start.Sub(now))
+	}
 	startUnix := start.Unix()
 	var wg sync.WaitGroup
 	var badMu sync.Mutex
@@ -740,24 +756,42 @@ func c14ServeHlsOnce(scen []string, sms []*logic.ServerManager, muxes []*http.Se
 			virt := int64(0)
 			var res []string
 			onTime := func() {
-				if time.Now().Unix() != startUnix+virt {
+				if timed && time.Now().Unix() != startUnix+virt {
 					badMu.Lock()
 					bad = true
 					badMu.Unlock()
 				}
 			}
+			// session ids handed out by redirects; the case refers to the n-th one as @n
+			var sids []string
 			for _, o := range strings.Split(sc, ",") {
 				f := strings.Split(o, ":")
 				switch f[0] {
 				case "G":
-					req := httptest.NewRequest("GET", "http://127.0.0.1:8080"+c14Str(f[4]), nil)
+					uri := c14Str(f[4])
+					for n := len(sids) - 1; n >= 0; n-- {
+						uri = strings.ReplaceAll(uri, "@"+strconv.Itoa(n), sids[n])
+					}
+					req := httptest.NewRequest("GET", "http://127.0.0.1:8080"+uri, nil)
 					req.RemoteAddr = c14Str(f[1]) + ":4567"
 					rec := httptest.NewRecorder()
 					onTime()
 					muxes[i].ServeHTTP(rec, req)
 					onTime()
 					body := rec.Body.Bytes()
+					loc := rec.Header().Get("Location")
 					switch {
+					case rec.Code == http.StatusFound && loc != "":
+						sid := ""
+						if u, err := url.Parse(loc); err == nil {
+							sid = u.Query().Get("session_id")
+						}
+						if sid == "" {
+							res = append(res, "302r-without-session-id")
+						} else {
+							sids = append(sids, sid)
+							res = append(res, "302r:"+c14Tok("@"+strconv.Itoa(len(sids)-1)))
+						}
 					case rec.Code == http.StatusOK && len(body) > 0:
 						res = append(res, "200:"+hexOf(body))
 					case rec.Code == http.StatusOK:
